@@ -57,7 +57,7 @@ def rule_recheck(ctx, rep):
             rep.bad("ANCHOR-LOST", "R-RECHECK/from_header_and_iter", "Arc::from_header_and_iter is missing", None, tag)
             continue
         for b in cands:
-            b = inline.inlined(F, b["key"])  # private helpers (`write_exact_from_iter`, `check_exhausted`) judged in place
+            b = inline.inlined_ctor(F, b["key"])  # private helpers (`write_exact_from_iter`, `check_exhausted`) judged in place
             B = cfg.Body(b)
             key = b["key"]
             # (1) slot writes: ptr::write whose value comes from Option::expect/unwrap of Iterator::next
@@ -103,17 +103,29 @@ def rule_recheck(ctx, rep):
             elif ok:
                 rep.ok("R-RECHECK", key + "/slot-write", cfg=tag)
             # (2) trailing exhaustion check guards the MAKE
-            make_bbs = inline.handle_make_blocks(F, b, ("Arc",))
+            # "the handle is built only after ..." = no normal return without it: a constructor may well assemble the handle first
+            # and check afterwards, as long as the handle is then dropped by the panic instead of being handed out
+            make_bbs = {i for i, x in enumerate(b["blocks"]) if x["term"]["k"] == "return"}
             guard = None
             for bi, bl in enumerate(b["blocks"]):
                 tt = bl["term"]
                 if tt["k"] != "switch":
                     continue
                 c = B.condition(tt["discr"])
-                if c and "call" in c and _callee(c["call"]) == "<core::option::Option<T>>::is_none":
+                if c and "call" in c and _callee(c["call"]) in ("<core::option::Option<T>>::is_none", "<core::option::Option<T>>::is_some"):
                     o = B.origin(c["call"]["args"][0], through_refs=True)
                     if o.get("kind") == "call" and o["term"].get("callee") == "core::iter::traits::iterator::Iterator::next":
-                        guard = (bi, tt, c)
+                        want_none = _callee(c["call"]).endswith("is_none")
+                        guard = (bi, tt, c, {tgt: ((tv != c["neg"]) == want_none) for tgt, tv in B.switch_truth(tt).items()})
+                elif not c:
+                    # `match items.next() { None => .., Some(_) => panic!() }`: a switch on the discriminant of next()'s result
+                    o3 = B.origin(tt["discr"])
+                    if o3.get("kind") == "rvalue" and o3["rv"]["k"] == "discr" and not o3["rv"]["place"]["p"]:
+                        o4 = B.origin_local(o3["rv"]["place"]["l"])
+                        if o4.get("kind") == "call" and o4["term"].get("callee") == "core::iter::traits::iterator::Iterator::next":
+                            nones = {tg for v, tg in tt["arms"] if v == 0}
+                            if nones:
+                                guard = (bi, tt, None, {tg: (tg in nones) for tg in cfg.successors(tt, with_unwind=False)})
             if guard is None:
                 # or a private helper that returns only if one more `next()` gave None (`check_exhausted(&mut items)`)
                 hb = [bi for bi, t in B.calls() if fillloop.helper_role(F, _callee(t)) == "asserts-exhausted"]
@@ -124,11 +136,9 @@ def rule_recheck(ctx, rep):
             if guard is None:
                 rep.bad("R-RECHECK", key + "/exhaustion", "no branch on `items.next().is_none()` found: an under-reporting iterator is not detected before the handle is built", F.loc(b), tag)
             else:
-                bi, tt, c = guard
-                truth = B.switch_truth(tt)
+                bi, tt, c, none_edge = guard
                 good = True
-                for tgt, tv in truth.items():
-                    is_none = tv != c["neg"]
+                for tgt, is_none in none_edge.items():
                     reach = B.reach(tgt, normal_only=True)
                     if not is_none and (reach & make_bbs):
                         good = False
@@ -139,7 +149,7 @@ def rule_recheck(ctx, rep):
                 if good and make_bbs:
                     rep.ok("R-RECHECK", key + "/exhaustion", cfg=tag)
                 else:
-                    rep.bad("R-RECHECK", key + "/exhaustion", "the handle is built on a path where the iterator was not confirmed exhausted (or the check does not dominate the construction)", F.loc(b, tt["span"]), tag)
+                    rep.bad("R-RECHECK", key + "/exhaustion", "the constructor can return a handle on a path where the iterator was not confirmed exhausted (the check does not dominate every normal return)", F.loc(b, tt["span"]), tag)
     rep.floor("R-RECHECK", 2, "slot-write provenance and trailing exhaustion check")
 
 
@@ -198,6 +208,8 @@ def rule_guard(ctx, rep):
                 rts = [e for e in p.events if e["kind"] == "RETARGET" and e["detail"].get("handle") == "ThinArc"]
                 # or the whole handle is overwritten in place: `ptr::write(self.this, thin)`
                 rts += [e for e in p.events if e["kind"] == "HIDE" and "write" in str(e["detail"].get("via")) and "ThinArc" in str(e["detail"].get("ty"))]
+                if not rts and _unchanged_edge(F, gb, guard_drop, p):
+                    continue  # nothing to write back: the path is behind `transient pointer == ThinArc pointer`
                 if not rts:
                     good = False
                     rep.bad("R-GUARD", key + "/guard-drop", balance.path_report(F, gb, p, "the guard's destructor returns without writing the (possibly replaced) pointer back into the ThinArc"), F.loc(gb), tag)
@@ -235,6 +247,51 @@ def rule_guard(ctx, rep):
                 else:
                     rep.bad("R-GUARD", key + "/guard-drop", "the pointer written back into the ThinArc is not the transient Arc's pointer", F.loc(gb), tag)
     rep.floor("R-GUARD", 2, "guard dropped on both exits; guard destructor retargets")
+
+
+def _unchanged_edge(F, gb, guard_adt, p):
+    """The path takes the true side of a comparison `guard's Arc pointer == guard's ThinArc pointer` (both stored pointers read
+    from the guard itself): the callback left the allocation in place and there is nothing to write back."""
+    from .. import ptrclass
+
+    a = F.adts.get(guard_adt)
+    if not a or not a.get("variants"):
+        return False
+    kinds = {}
+    for f in a["variants"][0]["fields"]:
+        hn = F.handle_name(F.strip_refs(f["ty"]))
+        if hn is None:
+            for x in F.adt_arg_types(f["ty"]):  # ManuallyDrop<Arc<..>>
+                hn = hn or F.handle_name(x)
+        kinds[f["name"]] = hn
+    B = cfg.Body(gb)
+    N = ptrclass.Norm(F)
+    blocks = list(p.blocks)
+    for i, bi in enumerate(blocks[:-1]):
+        t = gb["blocks"][bi]["term"]
+        if t["k"] != "switch":
+            continue
+        e = symx.expr(F, B, t["discr"])
+        sides = None
+        if e[0] == "call" and e[2] == "eq" and len(e[3]) == 2:
+            sides = [x[1] if x[0] == "addr" else x for x in e[3]]
+        elif e[0] == "bin" and e[1] == "Eq":
+            sides = [e[2], e[3]]
+        if sides is None:
+            continue
+        zero = [tg for v, tg in t["arms"] if v == 0]
+        if not zero or blocks[i + 1] == zero[0]:
+            continue  # the false side
+        ns = [N.norm(x, {}) for x in sides]
+        got = set()
+        for n in ns:
+            while n[0] == "cast":
+                n = n[2]
+            if n[0] == "stored" and n[1][0] == "field" and n[1][1] == ("arg", 1):
+                got.add(kinds.get(n[1][2]))
+        if got == {"Arc", "ThinArc"}:
+            return True
+    return False
 
 
 def _find_next(e, out):
@@ -451,6 +508,9 @@ def run(ctx, rep):
     balance.rule_unw(ctx, rep)
     rep.floor("R-UNW", 60, "API bodies with at least one unwinding path")
     rule_make_after_user(ctx, rep)
+    from .. import guards
+
+    guards.rules(ctx, rep)  # a partial-initialisation guard is a second destroyer of payload values: never after the owner exists, never ahead of the writes
     rule_recheck(ctx, rep)
     from . import c06
 
